@@ -1,6 +1,7 @@
 (* Extraction of the metadata model for the correspondence driver (ExtrOcamlBasic only). *)
 From Coq Require Extraction ExtrOcamlBasic.
-From FlacMeta Require Import Bytes Blocks BlockList Utf8 Cue Accessors Sniff.
+From FlacMeta Require Import Bytes Blocks BlockList Utf8 Cue Accessors Sniff CueRender.
 Extraction Language OCaml.
 Extraction "metadata_model.ml" read_metadata read_blocks write_blocks block_bytes body_size utf8_valid_std
-  cue_parse decoded_len duration channel_mask track_sample_ranges track_byte_ranges display catalog_text cue_tracks sniff.
+  cue_parse decoded_len duration channel_mask track_sample_ranges track_byte_ranges display catalog_text cue_tracks sniff
+  cue_text_matches block_of cue_lines.
